@@ -19,7 +19,7 @@ from mathy_core.parser import ExpressionParser
 
 from .. import shims
 from ..core import Report, Violation, collect, out_of_time, pmap, seed
-from ..rulekit import RULES, family_B, skel_json, skel_unjson, test_json_inputs
+from ..rulekit import RULES, family_B, literal_values, skel_json, skel_unjson, test_json_inputs, to_skel
 from ..symx import Ctx, Stats, Unsupported, explore, frac_of
 from ..trees import ConcreteProvider, audit, build, enum_upto, kind, preorder, root_of, sig, sk_size, sk_str, slot_roles, variables_of
 from ..zeval import Undefined, ceval, close, powr_axioms, var, zeval_top
@@ -34,8 +34,14 @@ def state_key(root: Any) -> str:
     return sig(root)
 
 
-def snapshot(root: Any) -> Tuple[str, str]:
-    return sig(root), V.safe_str(root)
+def snapshot(root: Any) -> Tuple[str, str, Tuple[str, ...]]:
+    return sig(root), V.safe_str(root), tuple(str(p) for p in audit(root))
+
+
+# fault kinds of a sequence that fall under another property's statement (that property's check runs the same two-step
+# sequences on long-lived rule instances and reports these kinds under its own id)
+OWNERS = {"C01": {"not-equivalent"}, "C02": {"not-equivalent"}, "C06": {"stale-answer", "step-raised"},
+          "C07": {"malformed", "variables", "earlier-state-altered"}}
 
 
 def equivalent(a: Any, b: Any, ctx: Optional[Ctx], env: Optional[Dict[str, Any]]) -> Tuple[str, Any]:
@@ -131,8 +137,10 @@ def applicable_moves(rules: List[Any], state: Any) -> List[Tuple[int, int]]:
     return moves
 
 
-def run_cloned(start_builder: Any, k: int, chooser: Any, ctx: Optional[Ctx], envs: List[Dict[str, Any]]):
-    """One sequence.  chooser(n, label) -> index.  Returns (problems, trace, model)."""
+def run_cloned(start_builder: Any, k: int, chooser: Any, ctx: Optional[Ctx], envs: List[Dict[str, Any]], ask: bool = False):
+    """One sequence.  chooser(n, label) -> index.  Returns (problems, trace, model).
+    ask: the agent asks can_apply_to(node) on the chosen node of the current state right before cloning it (so the rule
+    instance's most recent look was at the original, not at the clone)."""
     rules = [f() for _, f in RULES]  # long-lived instances, as an agent holds them
     start = start_builder()
     states = [start]
@@ -148,6 +156,8 @@ def run_cloned(start_builder: Any, k: int, chooser: Any, ctx: Optional[Ctx], env
         node = preorder(cur)[ni]
         how = f"{RULES[ri][0]} at node {ni} of '{V.safe_str(cur)}'"
         try:
+            if ask:
+                rules[ri].can_apply_to(node)
             target = node.clone_from_root()
             new = root_of(rules[ri].apply_to(target).result)
         except Exception as e:
@@ -193,12 +203,14 @@ def run_inplace(start_builder: Any, chooser: Any, ctx: Optional[Ctx], envs: List
     how = f"{RULES[r1][0]} queried at node {n1}, then {RULES[s][0]} applied in place at node {m}, then {RULES[r1][0]} asked again"
     try:
         again = bool(rules[r1].can_apply_to(nodes[n1]))
-        fresh = bool(RULES[r1][1]().can_apply_to(nodes[n1]))
+        # "the same answer for the same tree": the same tree built anew (new node objects, new ids), asked by a new instance
+        twin = build(to_skel(mid), ConcreteProvider(literal_values(mid)))
+        fresh = bool(RULES[r1][1]().can_apply_to(preorder(twin)[preorder(mid).index(nodes[n1])]))
     except Exception:
         return [], trace, None
     problems: List[Problem] = []
     if again != fresh:
-        problems.append(("stale-answer", f"{how}: the long-lived rule answers {again} for '{V.safe_str(mid)}', a fresh instance {fresh}"))
+        problems.append(("stale-answer", f"{how}: the long-lived rule answers {again} for '{V.safe_str(mid)}', a new instance on the same tree built anew {fresh}"))
     if again:
         try:
             final = root_of(rules[r1].apply_to(nodes[n1]).result)
@@ -216,8 +228,10 @@ def _can(rule: Any, n: Any) -> bool:
         return False
 
 
-def worker(item: Tuple[str, str, Any, Dict[int, Any], int]) -> Dict[str, Any]:
-    mode, label, sk, payload, k = item
+def worker(item: Any) -> Dict[str, Any]:
+    mode, label, sk, payload, k = item[:5]
+    owner = item[5] if len(item) > 5 else "C09"
+    kinds = OWNERS.get(owner)
     part = V.new_part()
     part["cases"] = 1
     st: Stats = part["stats"]
@@ -228,11 +242,13 @@ def worker(item: Tuple[str, str, Any, Dict[int, Any], int]) -> Dict[str, Any]:
 
     def h(ctx: Ctx) -> Any:
         chooser = lambda n, lab: ctx.choose(n, lab)
+        # equivalence queries only where the owner's statement is about values
+        ectx = ctx if kinds is None or "not-equivalent" in kinds else None
         with shims.installed():
-            if mode == "cloned":
-                problems, trace, model = run_cloned(builder, k, chooser, ctx, [])
+            if mode in ("cloned", "asked"):
+                problems, trace, model = run_cloned(builder, k, chooser, ectx, [], ask=(mode == "asked"))
             else:
-                problems, trace, model = run_inplace(builder, chooser, ctx, [])
+                problems, trace, model = run_inplace(builder, chooser, ectx, [])
         env = model_env(model, variables_of(builder())) if model is not None else None
         return problems, trace, env
 
@@ -251,6 +267,8 @@ def worker(item: Tuple[str, str, Any, Dict[int, Any], int]) -> Dict[str, Any]:
         real = [p for p in problems if p[0] != "inconclusive"]
         if len(real) != len(problems):
             part["inconclusive"] += 1
+        if kinds is not None:
+            real = [p for p in real if p[0] in kinds]
         if not real:
             part["proved"] += 1
             if len(part["samples"]) < 1 and len(trace) == k:
@@ -260,8 +278,8 @@ def worker(item: Tuple[str, str, Any, Dict[int, Any], int]) -> Dict[str, Any]:
         hit = [p for p in again if p[0] in {q[0] for q in real}]
         if hit:
             keys = {"fault": hit[0][0], "mode": mode, "rules": ">".join(RULES[a][0] for a, _ in trace)}
-            part["violations"].append(Violation("C09", f"{mode}:{hit[0][0]}", keys, f"start '{label}': {hit[0][1]}",
-                                                {"kind": "sequence", "mode": mode, "skeleton": skel_json(sk),
+            part["violations"].append(Violation(owner, f"{mode}:{hit[0][0]}", keys, f"start '{label}': {hit[0][1]}",
+                                                {"kind": "sequence", "mode": mode, "owner": owner, "skeleton": skel_json(sk),
                                                  "payloads": {str(a): b for a, b in payload.items()}, "k": k,
                                                  "trace": [list(t) for t in trace], "observed": hit[0][1]}))
         else:
@@ -283,7 +301,7 @@ def replay_trace(mode: str, sk: Any, payload: Dict[int, Any], k: int, trace: Lis
         return build(sk, ConcreteProvider(payload))
 
     envs = ([env] if env else []) + ENVS
-    if mode == "cloned":
+    if mode in ("cloned", "asked"):
         it = iter(trace)
         rules_moves: List[Any] = []
 
@@ -292,7 +310,7 @@ def replay_trace(mode: str, sk: Any, payload: Dict[int, Any], k: int, trace: Lis
             return chooser.moves.index(want) if want in chooser.moves else 0  # type: ignore[attr-defined]
 
         # run_cloned computes `moves` itself; re-implement the choice by matching the recorded (rule, node) pair
-        return _replay_cloned(builder, k, trace, envs)
+        return _replay_cloned(builder, k, trace, envs, ask=(mode == "asked"))
     seq = list(trace)
 
     def chooser2(n: int, lab: str) -> int:
@@ -312,7 +330,7 @@ def replay_trace(mode: str, sk: Any, payload: Dict[int, Any], k: int, trace: Lis
     return problems
 
 
-def _replay_cloned(builder: Any, k: int, trace: List[Tuple[int, int]], envs: List[Dict[str, Any]]) -> List[Problem]:
+def _replay_cloned(builder: Any, k: int, trace: List[Tuple[int, int]], envs: List[Dict[str, Any]], ask: bool = False) -> List[Problem]:
     rules = [f() for _, f in RULES]
     start = builder()
     states = [start]
@@ -325,6 +343,8 @@ def _replay_cloned(builder: Any, k: int, trace: List[Tuple[int, int]], envs: Lis
         node = preorder(cur)[ni]
         how = f"{RULES[ri][0]} at node {ni} of '{V.safe_str(cur)}'"
         try:
+            if ask:
+                rules[ri].can_apply_to(node)
             new = root_of(rules[ri].apply_to(node.clone_from_root()).result)
         except Exception as e:
             return [("step-raised", f"step {step} ({how}) raised {type(e).__name__}: {str(e)[:80]}")]
@@ -342,6 +362,9 @@ def _replay_cloned(builder: Any, k: int, trace: List[Tuple[int, int]], envs: Lis
 def replay_record(rec: Dict[str, Any]) -> Tuple[bool, str]:
     probs = replay_trace(rec["mode"], skel_unjson(rec["skeleton"]), {int(a): b for a, b in rec["payloads"].items()}, rec["k"],
                          [tuple(t) for t in rec["trace"]], None)
+    kinds = OWNERS.get(rec.get("owner", "C09"))
+    if kinds is not None:
+        probs = [p for p in probs if p[0] in kinds]
     return bool(probs), "; ".join(p[1] for p in probs)
 
 
@@ -356,11 +379,15 @@ def starts(tier: str) -> List[Tuple[str, Any, Dict[int, Any]]]:
             continue
         for variant in ({"coef": 2, "exp": 2, "fact": 3}, {"coef": -3, "exp": 0, "fact": 0}, {"coef": 0.00003, "exp": 2, "fact": 3}):
             out.append((sk_str(sk), sk, {s: variant[r] for s, r in roles.items()}))
+    # + / * chains with 3 (thorough: 4) leaves: the chained / regrouped forms the rules special-case
+    kx = ("mul", ("const", 0), ("var", "x"))
+    chain_leaves = [("const", 0), ("var", "x"), kx] + ([("var", "y")] if tier != "quick" else [])
+    for sk in V.am_chains(3, chain_leaves) + (V.am_chains(4, [("var", "x"), kx])[:] if tier != "quick" else []):
+        roles = slot_roles(sk)
+        out.append((sk_str(sk), sk, {s_: 2 + i for i, s_ in enumerate(sorted(roles))}))
     extra = ["(x * y) * (b + c)", "2x * y + 3x", "2x * y", "4x + (2x + y)", "5 + 3x + y", "3x = 6", "2 * 3x = 12", "x - (y + 3 + z) = 2",
              "x + 2 + y = 3", "(z + 3) * (x + 2y)", "4 / y * z", "7 - 1.5^x", "x / (y / 2) + 1", "4x^2 + 2x^2 + x", "x^2 * x^3 * x",
              "(1 / 40000 / 50000) * 40000 * 50000 + x", "x * (3 / 60000 / 60000)", "0.00002 * 0.00003 + x", "y = x / (1 / 200000 / 300000)"]
-    from ..rulekit import literal_values, to_skel
-
     for text in extra:
         try:
             t = ExpressionParser().parse(text)
@@ -385,6 +412,7 @@ def run(tier: str) -> int:
         n = sk_size(sk)
         k = 2 if tier == "quick" else (3 if n <= 7 else 2)
         items.append(("cloned", lab, sk, vals, k))
+        items.append(("asked", lab, sk, vals, 2))
         if n <= (7 if tier == "quick" else 11):
             items.append(("inplace", lab, sk, vals, 2))
     rep.bounds = {"starts": f"{len(sts)} start expressions: rule example inputs as written, small trees with two payload variants, "
@@ -407,3 +435,26 @@ def run(tier: str) -> int:
     items.sort(key=lambda it: -sk_size(it[2]))
     collect(rep, pmap(worker, items, budget_s=420 if tier == "quick" else 720, chunk=2))
     return rep.finish(required_reach=["cloned", "inplace"])
+
+
+def cross(rep: Report, tier: str, owner: str) -> None:
+    """The two-step sequences of C09 (long-lived rule instances; cloned, asked and in-place modes), run inside another
+    property's check: only the fault kinds that property's statement names are reported, under its id."""
+    items = []
+    for lab, sk, vals in starts(tier):
+        is_eq = sk[0] == "eq"
+        if (owner == "C01" and is_eq) or (owner == "C02" and not is_eq):
+            continue
+        n = sk_size(sk)
+        items.append(("cloned", lab, sk, vals, 2, owner))
+        items.append(("asked", lab, sk, vals, 2, owner))
+        if n <= (7 if tier == "quick" else 11):
+            items.append(("inplace", lab, sk, vals, 2, owner))
+    rep.bounds["two_step_sequences"] = (
+        f"{len(items)} runs: from each start expression of the C09 family every 2-step sequence of (rule-option, applicable "
+        "node) on rule instances that live for the whole sequence - applied to clone_from_root() copies, with or without a "
+        "can_apply_to on the original first, and in place with a re-query - reporting only " + ", ".join(sorted(OWNERS[owner])))
+    rep.functions += ["BaseRule.find_nodes / can_apply_to / apply_to on long-lived rule instances (2-step sequences)"]
+    random.Random(seed()).shuffle(items)
+    items.sort(key=lambda it: -sk_size(it[2]))
+    collect(rep, pmap(worker, items, budget_s=240 if tier == "quick" else 480, chunk=2))
